@@ -500,7 +500,7 @@ let mut r9_out: Vec<ServerSocketInfo> = Vec::new();
 
 impl Accept {
 
-//@extract file=actix-server/src/accept.rs item="impl Accept / fn next" ret=r props=C04,C08,C06,C01
+//@extract file=actix-server/src/accept.rs item="impl Accept / fn next" ret=r props=C04,C08,C06,C01,C02,C03
 //@spec
     requires
         self.next < self.handles@.len(),
@@ -508,7 +508,7 @@ impl Accept {
         *r == self.handles@[self.next as int],
 //@end
 
-//@extract file=actix-server/src/accept.rs item="impl Accept / fn set_next" props=C04,C06,C01
+//@extract file=actix-server/src/accept.rs item="impl Accept / fn set_next" props=C04,C06,C01,C02,C03,C08
 //@spec
     requires
         old(self).next < old(self).handles@.len(),
@@ -520,14 +520,14 @@ impl Accept {
         final(self).same_ctl(old(self)),
 //@end
 
-//@extract file=actix-server/src/accept.rs item="impl Accept / fn remove_next" props=C01,C08,C06,C04
+//@extract file=actix-server/src/accept.rs item="impl Accept / fn remove_next" props=C01,C08,C06,C04,C02,C03
 //@spec
     requires
         old(self).wf(),
         old(self).next < old(self).handles@.len(),
     ensures
         final(self).handles@ == swap_removed(old(self).handles@, old(self).next as int),   // [C01,C08]
-        final(self).avail@ == old(self).avail@.remove(old(self).handles@[old(self).next as int].spec_idx()),   // [C01,C08]
+        final(self).avail@ == old(self).avail@.remove(old(self).handles@[old(self).next as int].spec_idx()),   // [C01,C03,C04,C08] exactly the removed worker's bit is cleared: no live worker loses its availability
         final(self).srv.faulted() == old(self).srv.faulted().push(old(self).handles@[old(self).next as int].spec_idx()),   // [C01,C08]
         final(self).next == old(self).next,
         final(self).same_ctl(old(self)),
@@ -672,7 +672,7 @@ impl Accept {
 //@end
 
 
-//@extract file=actix-server/src/accept.rs item="impl Accept / fn set_timeout" props=C05,C06
+//@extract file=actix-server/src/accept.rs item="impl Accept / fn set_timeout" props=C05,C06,C03
 //@spec
     ensures
         final(self).timeout.is_some(),
@@ -683,7 +683,7 @@ impl Accept {
         final(self).poll == old(self).poll && final(self).waker_queue == old(self).waker_queue && final(self).paused == old(self).paused,
 //@end
 
-//@extract file=actix-server/src/accept.rs item="impl Accept / fn register" ret=r props=C05,C06
+//@extract file=actix-server/src/accept.rs item="impl Accept / fn register" ret=r props=C05,C06,C03
 //@spec
     requires
         old(info).token < self.reg().token_bound(),
@@ -693,7 +693,7 @@ impl Accept {
         info_same_but_reg(final(info), old(info)),
 //@end
 
-//@extract file=actix-server/src/accept.rs item="impl Accept / fn register_logged" props=C05,C06
+//@extract file=actix-server/src/accept.rs item="impl Accept / fn register_logged" props=C05,C06,C03
 //@spec
     requires
         old(info).token < self.reg().token_bound(),
@@ -739,7 +739,7 @@ impl Accept {
 //@end
 
 #[verifier::exec_allows_no_decreases_clause]
-//@extract file=actix-server/src/accept.rs item="impl Accept / fn accept" props=C01,C03,C05,C06 trace_calls="accept_one"
+//@extract file=actix-server/src/accept.rs item="impl Accept / fn accept" props=C01,C03,C05,C06,C02,C04,C08 trace_calls="accept_one"
 //@spec
     requires
         old(self).wf(),
@@ -793,7 +793,7 @@ impl Accept {
 //@end
 
 #[verifier::exec_allows_no_decreases_clause]
-//@extract file=actix-server/src/accept.rs item="impl Accept / fn accept_all" props=C03,C04,C05,C06
+//@extract file=actix-server/src/accept.rs item="impl Accept / fn accept_all" props=C03,C04,C05,C06,C01,C02,C08
 //@spec
     requires
         old(self).wf(),
@@ -833,7 +833,7 @@ impl Accept {
 //@end
 
 
-//@extract file=actix-server/src/accept.rs item="impl Accept / fn process_timeout" props=C05,C06
+//@extract file=actix-server/src/accept.rs item="impl Accept / fn process_timeout" props=C05,C06,C03
 //@spec
     requires
         old(self).wf(),
@@ -970,7 +970,7 @@ impl Accept {
 //@end
 
 #[verifier::exec_allows_no_decreases_clause]
-//@extract file=actix-server/src/accept.rs item="impl Accept / fn poll_with" props=C05,C06,C01,C03 intended_panics noreach trace_calls="poll.poll,process_timeout,accept,handle_waker"
+//@extract file=actix-server/src/accept.rs item="impl Accept / fn poll_with" props=C05,C06,C01,C03,C02,C04,C08 intended_panics noreach trace_calls="poll.poll,process_timeout,accept,handle_waker"
 //@spec
     requires
         old(self).wf(),
